@@ -282,3 +282,40 @@ CONTRACTS["programs:ProgramSet.remove_comp#two_compartments"] = dict(
         ("C16.other_compartments_stay_targeted", "'other_comp' in self.comps and prog.target_comps == ['other_comp'] and len(self.covouts) == 3"),
     ],
     defined_props=["C16"])
+
+
+# ---- Covout.__init__ (C12 "a combination's outcome is the explicitly specified value where given"; C16: how an effects row becomes an object): the
+# interaction text `p0 + p1 = 0.9, p0+p2=0.5` becomes one explicit outcome per named combination, stored RELATIVE to the baseline; a name that is
+# not a program of the entry is refused; the default coverage interaction is additive and an unknown one is refused; the outcome cache is built
+def _env_covout_init(cov, imp, progs=("p0", "p1", "p2")):
+    def make(it):
+        from pyvc.interp import PyObjV
+        from pyvc import source
+
+        B = z3.Real("baseline")
+        outs = {p: z3.Real("out_%s" % p) for p in progs}
+        return {"self": PyObjV("Covout", source.load("programs"), {}), "par": "par", "pop": "adults", "progs": dict(outs), "cov_interaction": cov, "imp_interaction": imp,
+                "uncertainty": z3.Real("sigma"), "baseline": B, "B": B, "OUTS": outs, "BUILT": []}
+
+    return make
+
+
+def _ghost_update_outcomes(it):
+    it.live_env["BUILT"].append(dict(it.stub_receiver.fields["_interactions"]))
+
+
+_cs = {"self.update_outcomes": _ghost_update_outcomes, "float": (lambda it, s: float(s) if isinstance(s, str) else s)}
+for _tag, _cov, _imp, _exc, _clauses in (
+        ("two_explicit_outcomes", None, "p0 + p1 = 0.9, p0+p2=0.5", None,
+         [("C12.each_named_combination_gets_its_explicit_outcome_relative_to_baseline", "len(self._interactions) == 2 and self._interactions[frozenset(['p0', 'p1'])] == 0.9 - B and self._interactions[frozenset(['p0', 'p2'])] == 0.5 - B"),
+          ("C12.the_default_coverage_interaction_is_additive", "self.cov_interaction == 'additive'")]),
+        ("no_interaction_text", "nested", None, None, [("C12.no_explicit_outcomes_without_an_interaction_text", "len(self._interactions) == 0 and self.cov_interaction == 'nested'")]),
+        ("best_keyword", "random", "Best", None, [("C12.the_keyword_best_means_no_explicit_outcome", "len(self._interactions) == 0 and self.cov_interaction == 'random'")]),
+        ("unknown_program_in_the_text", None, "p0+p9=0.9", "AssertionError", []),
+        ("unknown_coverage_interaction", "sequential", None, "AssertionError", [])):
+    CONTRACTS["programs:Covout.__init__#%s" % _tag] = dict(
+        schema=schema, make_env=_env_covout_init(_cov, _imp), call_stubs=_cs,
+        raises=({_exc: "True"} if _exc else {}), raises_props=["C12", "C18"],
+        ensures=_clauses + ([] if _exc else [("C12+C16.the_entry_keeps_what_it_was_given_and_builds_its_outcome_cache_last",
+                                              "self.par == 'par' and self.pop == 'adults' and self.baseline == B and self.progs == OUTS and self.progs is not progs and len(BUILT) == 1 and BUILT[0] == self._interactions")]),
+        defined_props=["C12", "C16", "C18"])
